@@ -27,6 +27,9 @@ import (
 // written order, pre-order) and, for paths without filters and functions, the sequence a
 // small reference walk in Go produces with sort.Strings.
 //
+// One case in 12 (class wide-object): the outermost object has 16..40 keys, 2..4 of them (sometimes 2 more) from one
+// long-common-prefix family, and the rename-in-place phase below always runs on it.
+//
 // Two further families (the order must be a function of the document as a VALUE, not of the
 // Go objects it is made of, nor of what a parsed function has seen before):
 //   - shared containers (22% of the cases): the same map / slice object is referenced from
@@ -60,6 +63,7 @@ type c07Gen struct {
 	o        GenOpts
 	root     interface{}
 	descBias bool // documents with shared containers: more `..`
+	wide     bool // class wide-object: key sets of 16+ names always include members of a long-prefix family
 }
 
 func (g *c07Gen) leaf() interface{} {
@@ -83,7 +87,7 @@ func (g *c07Gen) keyset(n int) []string {
 	}
 	// long names with a common prefix (30% of the key sets): 2..4 names of one family replace
 	// as many of the drawn keys (the families and the short pool are disjoint)
-	if n >= 2 && r.Chance(30) {
+	if long := r.Chance(30); n >= 2 && (long || (g.wide && n >= 16)) {
 		c07LongInto(ks, r)
 	}
 	return ks
@@ -805,6 +809,12 @@ func (c07) Exec(seed int64, i int, tier string) Record {
 	r := CaseRng(seed, "C07", i)
 	g := &c07Gen{r: r, o: GenOpts{MaxDepth: 3, Filters: true, MaxSteps: 3, ErrBias: 8}}
 	nkeys := r.Range(2, 12)
+	wide := i%12 == 5
+	if wide {
+		// class wide-object: 16..40 keys, 2..4 of them from one long-common-prefix family
+		nkeys = r.Range(16, 40)
+		g.wide = true
+	}
 	var doc interface{}
 	if r.Chance(82) {
 		doc = g.obj(0, nkeys)
@@ -833,6 +843,9 @@ func (c07) Exec(seed int64, i int, tier string) Record {
 	}
 	rec := Record{Text: text, Doc: JSONText(doc), Tags: stepTags(p)}
 	rec.Info = map[string]interface{}{"accessor": acc, "jnum": jn}
+	if wide {
+		rec.Tags = append(rec.Tags, "class:wide-object", pick(nkeys >= 24, "wide-object:24+keys", "wide-object:16-23keys").(string))
+	}
 	if n := scaleMaxNames(p); n >= 8 {
 		rec.Tags = append(rec.Tags, "multi:long-list")
 		if n >= 16 {
@@ -912,7 +925,7 @@ func (c07) Exec(seed int64, i int, tier string) Record {
 
 	// keys renamed in place between two evaluations of the same parsed function
 	var renQ []LeanQ
-	if r.Chance(35) {
+	if ren := r.Chance(35); ren || wide {
 		md := c07Rebuild(doc, r) // separate objects throughout
 		pre := SafeCall(f, md)
 		if c := c05Canon(pre); c != firstCanon {
